@@ -382,7 +382,7 @@ def run(rep):
     rep.coverage["evaluations"] = rep.coverage.get("impl_cycles", 0) + rep.coverage.get("replay_cycles", 0)
     rep.coverage["distinct_nontrivial"] = rep.coverage.get("edges_total", 0) + len(seen)
     for k, v in cnt.items():
-        if v == 0:
+        if v == 0 and not rep.violations:
             rep.machinery(f"C15: corner '{k}' never occurred in the recorded traces (vacuous)")
     rep.assumptions += ["Amaranth Python simulator is faithful to the elaborated netlist",
                         "returned elements at positions >= count are unspecified and masked by a harness adapter",
